@@ -1,6 +1,7 @@
 import TantivyModel.Driver.Proto
 import TantivyModel.Model.SSTable.Search
 import TantivyModel.Model.SSTable.Merge
+import TantivyModel.Model.SSTable.AddrStore
 /-!
 Line protocol of the C15 model (ordered-map spec + sstable block model).
 
@@ -12,6 +13,8 @@ Line protocol of the C15 model (ordered-map spec + sstable block model).
 * `encode <blockLen> <keys>` — key bytes of every block as the model writes them.
 * `insert <blockLen> <keys>` — `ok` or `panic:<index of the rejected key>`.
 * `merge <sum|void> <keys/vals> …` — k-way merge, spec and model, with ordinal tables.
+* `index <hex file> <ords>` — the block-address store of a real file decoded by the model:
+  `ord:start:end,…|block ids located for the ordinals` (`empty` for a ≤ 1-block file).
 * `shorter <left> <right>`, `pfxup <prefix>`, `lev <d> <query> <key>`, `cpl <a> <b>`, `lt <a> <b>`.
 -/
 namespace TantivyModel.Driver.C15
@@ -257,6 +260,20 @@ def handle : List String → String
         s!"{showKeys (keys m)}/{showNats (m.map (·.2))}/{"|".intercalate (ts.map showOrdTable)}"
       s!"{sh spec specTables}~{sh model modelTables}"
     | none => "bad-op"
+  | ["index", h, os] =>
+    match bytesOfHex h, valList os with
+    | some bs, some os =>
+      let n := bs.length
+      let foot := bs.drop (n - Gen.SSTABLE_FOOTER_LEN)
+      let indexOffset := u64le foot
+      let indexBytes := (bs.take (n - Gen.SSTABLE_FOOTER_LEN)).drop indexOffset
+      let fstLen := u64le (indexBytes.drop (indexBytes.length - 8))
+      if fstLen = 0 then "empty"
+      else
+        let store := openStore ((indexBytes.take (indexBytes.length - 8)).drop fstLen)
+        let addrs := store.all
+        s!"{",".intercalate (addrs.map (fun a => s!"{a.firstOrd}:{a.start}:{a.stop}"))}|{showNats (os.map store.locateOrd)}"
+    | _, _ => "bad-op"
   | ["shorter", l, r] =>
     match bytesOfHex l, bytesOfHex r with
     | some l, some r => hexOfBytes (findShorter l r)
